@@ -82,7 +82,7 @@ def register(R):
 
   # math_utils: contracts proved against their bodies (np.divide(where=) etc. by A3), then used modularly
   R.add(Contract(f'{MU}::safe_divide', P, types=dict(a='rreal', b='rreal'), ret='rreal',
-                 ensures=['result == sdiv(a, b)'], note='0 when the denominator is 0'))
+                 ensures=['result == sdiv(a, b)'], bounded='bounded_rolling', note='0 when the denominator is 0 (and only then)'))
   R.add(Contract(f'{MU}::pos_sqrt', P, types=dict(value='rreal'), ret='rreal',
                  raises_unless={'ValueError': 'value >= 0'},
                  ensures=['result >= 0', 'result * result == value', 'result == sqrt(value)']))
